@@ -163,6 +163,7 @@ class KNNSupervisedOPF(OPF):
                 )
 
         max_acc = 0.0
+        best_k = 1
 
         for k in range(1, self.max_k + 1):
             self.subgraph.best_k = k
